@@ -171,6 +171,9 @@ var verif_ghost struct {
 	mRenamed     bool      // the temporary file was renamed over the manifest
 	mDirSynced   bool      // the directory was fsynced after the rename
 	mLockHeld    bool      // the manifest file lock is held by this process
+	mSpecsOK     bool      // checkNewSpecsPresent accepted (upstream, contents): every newly named table file is in the directory
+	mSpecsUp     hash.Hash // lock of the upstream contents that check was made against
+	mSpecsNew    hash.Hash // lock of the new contents that check was made for
 
 	// root commit through a manifest (NomsBlockStore.updateManifest / ChunkJournal.Update)
 	uCalled        bool      // manifest.Update was invoked
